@@ -100,6 +100,9 @@ FIXED = [
     ("C08", "46bea00", "`f.bind({x:1},'a').bind({x:2},'b')('c')` ran f with this = {x:2} and arguments ('b','c'): bind wrapped a bound function without taking over its this/arguments and the call path unwraps one level"),
     ("C02", "5899f59", "`var f=Math.abs; for(i<5000) f=f.bind(null); f(1)` ended in a Python RecursionError: each bind of a host function nested one more Python closure"),
     ("C02", "8c4e172", "`var g=Math.abs; for(i<5000) g=g.call; g()` (same with apply, and with a script function) ended in a Python RecursionError: stacked call/apply wrappers called their captured function outside the host-depth budget"),
+    ("C10", "bed597f", "`/a/i.test('\u00df')` and `new RegExp('\\c\u00df')` raised a Python TypeError: ord() of an upper-cased character whose mapping is two characters"),
+    ("C04", "69320de", "`parseInt('1\u0130', 36)` raised a Python TypeError: ord() of the lower-cased U+0130 (two code points)"),
+    ("C20", "dc5d38a", "`r=/a/g; r.lastIndex=1.5; r.test('aaa')` raised a Python TypeError, a negative lastIndex indexed from the end, and a non-global regex had a stored fraction/string replaced by an integer: lastIndex went to the matcher unconverted and was written back unconditionally"),
 ]
 
 
